@@ -35,7 +35,7 @@ func init() {
 			{Name: "includes", N: constN(600, 20000), Gen: c01GenIncludes, Eval: c01Eval},
 			{Name: "macros", Stream: c01StreamMacros, Eval: c01Eval},
 			{Name: "macros_rand", N: constN(500, 20000), Gen: c01GenMacrosRand, Eval: c01Eval},
-			{Name: "stress", N: constN(len(stressKinds)*2, len(stressKinds)*6), Gen: c01GenStress, Eval: c01Eval},
+			{Name: "stress", N: func(tier string) int { return len(stressList(tier)) }, Gen: c01GenStress, Eval: c01Eval},
 			{Name: "options", N: constN(1500, 40000), Gen: c01GenOptions, Eval: c01Eval},
 		},
 		Floors: map[string]int64{"accepted": 500, "rejected": 5000},
@@ -148,11 +148,16 @@ var fragments = []string{
 	"INFO\n  Title \"T%d\"\n",
 }
 
-func frag(r *xrand.Rand, uniq *int) string {
+func frag(r *xrand.Rand, uniq *int) string { return fragOf(r, uniq, len(fragments)) }
+
+// fragSafe never yields a fragment that may legitimately appear only once (INFO).
+func fragSafe(r *xrand.Rand, uniq *int) string { return fragOf(r, uniq, len(fragments)-1) }
+
+func fragOf(r *xrand.Rand, uniq *int, n int) string {
 	*uniq++
-	f := fragments[r.Intn(len(fragments))]
-	n := strings.Count(f, "%d")
-	args := make([]interface{}, n)
+	f := fragments[r.Intn(n)]
+	k := strings.Count(f, "%d")
+	args := make([]interface{}, k)
 	for i := range args {
 		args[i] = *uniq
 	}
@@ -386,19 +391,40 @@ func c01GenMacrosRand(r *xrand.Rand, idx int, tier string) *fw.Case {
 
 // ---- size stress ----
 
-var stressKinds = []string{
-	"nest-array", "nest-object", "nest-paren", "long-line", "many-directives", "allof-chain", "ref-chain",
-	"many-macros", "long-param", "long-comment", "deep-description", "many-enums", "nest-mixed", "long-annotation",
+// Sizes are chosen so that the unchanged tree stays far below the per-case CPU cap: the type-chain
+// cases are roughly cubic in the number of types in this library (100 types: 0.1 s, 400: 2.6-22 s).
+type stressCase struct {
+	kind string
+	n    int
+}
+
+var stressQuick = []stressCase{
+	{"nest-array", 1000}, {"nest-object", 1000}, {"nest-mixed", 600}, {"nest-paren", 5000}, {"nest-array", 5200},
+	{"long-line", 400000}, {"many-directives", 3000}, {"allof-chain", 100}, {"ref-chain", 120}, {"many-macros", 300},
+	{"long-param", 200000}, {"long-comment", 100000}, {"deep-description", 20000}, {"many-enums", 400}, {"long-annotation", 100000},
+	{"many-types", 400}, {"wide-object", 3000}, {"many-includes-lines", 2000},
+}
+
+var stressThorough = append(append([]stressCase{}, stressQuick...), []stressCase{
+	{"nest-array", 4000}, {"nest-object", 4000}, {"nest-object", 5200}, {"nest-array", 30000}, {"nest-mixed", 3000}, {"nest-paren", 200000},
+	{"long-line", 4000000}, {"many-directives", 40000}, {"allof-chain", 220}, {"ref-chain", 300}, {"many-macros", 2000},
+	{"long-param", 4000000}, {"long-comment", 4000000}, {"deep-description", 400000}, {"many-enums", 2500}, {"long-annotation", 2000000},
+	{"many-types", 1500}, {"wide-object", 40000}, {"many-includes-lines", 50000},
+}...)
+
+var stressKinds = stressQuick // (length used by the registration)
+
+func stressList(tier string) []stressCase {
+	if tier == "thorough" {
+		return stressThorough
+	}
+	return stressQuick
 }
 
 func c01GenStress(r *xrand.Rand, idx int, tier string) *fw.Case {
-	kind := stressKinds[idx%len(stressKinds)]
-	scale := 1 + idx/len(stressKinds)
-	big := tier == "thorough"
-	n := 400 * scale
-	if big {
-		n = 3000 * scale
-	}
+	list := stressList(tier)
+	sc := list[idx%len(list)]
+	kind, n := sc.kind, sc.n
 	var sb bytes.Buffer
 	sb.WriteString("JSIGHT 0.3\n")
 	switch kind {
@@ -411,48 +437,63 @@ func c01GenStress(r *xrand.Rand, idx int, tier string) *fw.Case {
 	case "nest-paren":
 		sb.WriteString("URL /a\n" + strings.Repeat("(\n", n) + strings.Repeat(")\n", n))
 	case "long-line":
-		sb.WriteString("TYPE @a\n\"" + strings.Repeat("x", n*200) + "\"\n")
+		sb.WriteString("TYPE @a\n\"" + strings.Repeat("x", n) + "\"\n")
 	case "many-directives":
-		for i := 0; i < n*3; i++ {
+		for i := 0; i < n; i++ {
 			fmt.Fprintf(&sb, "GET /p%d\n  200 any\n", i)
 		}
 	case "allof-chain":
-		m := n / 2
 		sb.WriteString("TYPE @c0\n{\"k0\": 1}\n")
-		for i := 1; i < m; i++ {
-			fmt.Fprintf(&sb, "TYPE @c%d\n{\"k%d\": 1} // {allOf: \"@c%d\"}\n", i, i, i-1)
+		for i := 1; i < n; i++ {
+			fmt.Fprintf(&sb, "TYPE @c%d\n{ // {allOf: \"@c%d\"}\n  \"k%d\": 1\n}\n", i, i-1, i)
 		}
 	case "ref-chain":
-		m := n / 2
 		sb.WriteString("TYPE @c0\n1\n")
-		for i := 1; i < m; i++ {
+		for i := 1; i < n; i++ {
 			fmt.Fprintf(&sb, "TYPE @c%d\n{\"k\": @c%d}\n", i, i-1)
 		}
+	case "many-types":
+		for i := 0; i < n; i++ {
+			fmt.Fprintf(&sb, "TYPE @t%d\n%d\n", i, i)
+		}
 	case "many-macros":
-		m := n / 4
-		for i := 0; i < m; i++ {
-			fmt.Fprintf(&sb, "MACRO @m%d\n(\n  TYPE @t%d\n  1\n", i, i)
-			if i+1 < m {
+		for i := 0; i < n; i++ {
+			fmt.Fprintf(&sb, "MACRO @m%d\n(\n  TAG @t%d\n", i, i)
+			if i+1 < n {
 				fmt.Fprintf(&sb, "  PASTE @m%d\n", i+1)
 			}
 			sb.WriteString(")\n")
 		}
 		sb.WriteString("PASTE @m0\n")
 	case "long-param":
-		sb.WriteString("INFO\n  Title \"" + strings.Repeat("t", n*100) + "\"\n")
+		sb.WriteString("INFO\n  Title \"" + strings.Repeat("t", n) + "\"\n")
 	case "long-comment":
-		sb.WriteString("###" + strings.Repeat("c#c\n", n*50) + "###\nINFO\n  Title \"x\"\n")
+		sb.WriteString("###" + strings.Repeat("c#c\n", n/4) + "###\nINFO\n  Title \"x\"\n")
 	case "deep-description":
-		sb.WriteString("INFO\n  Description\n" + strings.Repeat("    line of text\n\n", n*5))
+		sb.WriteString("INFO\n  Description\n" + strings.Repeat("    line of text\n\n", n/18))
 	case "many-enums":
 		for i := 0; i < n; i++ {
 			fmt.Fprintf(&sb, "ENUM @e%d\n[%d]\n", i, i)
 		}
-		sb.WriteString("TYPE @u\n{\"a\": 1 // {enum: @e0}\n}\n")
+		sb.WriteString("TYPE @u\n{\n  \"a\": 0 // {enum: @e0}\n}\n")
 	case "long-annotation":
-		sb.WriteString("GET /a // " + strings.Repeat("word ", n*40) + "\n  200 any\n")
+		sb.WriteString("GET /a // " + strings.Repeat("word ", n/5) + "\n  200 any\n")
+	case "wide-object":
+		sb.WriteString("TYPE @w\n{\n")
+		for i := 0; i < n; i++ {
+			if i > 0 {
+				sb.WriteString(",\n")
+			}
+			fmt.Fprintf(&sb, "  \"k%d\": %d", i, i)
+		}
+		sb.WriteString("\n}\n")
+	case "many-includes-lines":
+		for i := 0; i < n; i++ {
+			sb.WriteString("# c\n\n   \n")
+		}
+		sb.WriteString("GET /a\n  200 any\n")
 	}
-	return oneDocCase(sb.Bytes(), "", fmt.Sprintf("stress %s scale=%d", kind, scale))
+	return oneDocCase(sb.Bytes(), "", fmt.Sprintf("stress %s n=%d", kind, n))
 }
 
 // ---- option sets ----
